@@ -190,6 +190,23 @@ Fixpoint grun (c : cfg) (g : gstate) (l : list gop) : res gstate :=
   | o :: r => let* g' := gstep c g o in grun c g' r
   end.
 
+(* ---------- the invariant of a run ---------- *)
+
+Definition client_inv (s : server) (sent : list (N * structure)) (cl : sclient) : Prop :=
+  sc_authorized cl = true ->
+  pending_ok s (sc_ticks cl) (sent_of (sc_slot cl) sent) /\
+  (* no running frame since the last reset: nobody has been sent anything *)
+  (sv_last_running s = false -> sent_of (sc_slot cl) sent = [] /\ fresh_ticks (sc_ticks cl)).
+
+Record ginv (g : gstate) : Prop := mkGInv {
+  gi_srv : srv_ok (g_srv g);
+  gi_slots : NoDup (map sc_slot (sv_clients (g_srv g)));
+  gi_idle : sv_last_running (g_srv g) = false -> sv_removal_buf (g_srv g) = [];
+  gi_clients : forall cl, In cl (sv_clients (g_srv g)) -> client_inv (g_srv g) (g_sent g) cl;
+  gi_dom : forall slot, al_get slot (g_sent g) <> None ->
+           exists cl, In cl (sv_clients (g_srv g)) /\ sc_slot cl = slot /\ sc_authorized cl = true
+}.
+
 (* decidable version of struct_equiv for the examples: same key sets, same kind sets *)
 Definition kinds_eqb (a b : list N) : bool :=
   forallb (fun k => mem_N k b) a && forallb (fun k => mem_N k a) b.
